@@ -8,6 +8,47 @@ let kname k = match k with KPS -> "PS" | KDef -> "Def" | KCsr -> "Csr" | KWake -
   | KTracks -> "Tracks" | KRF -> "RF" | KPadded -> "Padded"
 let mname m = match m with MStatus -> "status" | MAborted -> "Aborted." | MFinished -> "Finished."
 
+let print_outcome id o =
+  Printf.printf "case %s\n" id;
+  print_string "trace";
+  List.iter (fun (l, k) -> Printf.printf " %d:%d" (int_of_z l) (int_of_z k)) o.o_trace;
+  print_newline ();
+  print_string "file";
+  List.iter (fun ((kd, st), rows) -> Printf.printf " %s:%d:%d" (kname kd) (int_of_z st) (int_of_z rows)) o.o_file;
+  print_newline ();
+  print_string "log";
+  List.iter (fun m -> Printf.printf " %s" (mname m)) o.o_log;
+  print_newline ();
+  Printf.printf "status %s\n" (match o.o_status with Some z -> string_of_int (int_of_z z) | None -> "none");
+  Printf.printf "k %d\n" (int_of_z o.o_k);
+  Printf.printf "abort %d\n" (if o.o_abort then 1 else 0);
+  Printf.printf "pc %d\n" (int_of_z o.o_pc);
+  print_string "rf";
+  List.iter (fun (st, l) -> Printf.printf " %d:%s" (int_of_z st) (String.concat "," (List.map (fun x -> string_of_int (int_of_z x)) l))) o.o_rf;
+  print_newline ();
+  print_string "pending";
+  List.iter (fun x -> Printf.printf " %d" (int_of_z x)) o.o_pending;
+  print_newline ()
+
+(* `full id laststep outstep h5save renorm hdf wake dynrf at rep ntrue c1 .. cn nthrow x1 .. xm`: the whole program,
+   set-up included; c1..cn are the opaque conditions of the set-up that hold, x1..xm the opaque statements that throw *)
+let do_full () =
+  let id = next () in
+  let last = nexti () in let outs = nexti () in let h5 = nexti () in let rn = nexti () in
+  let hdf = nexti () <> 0 in let wake = nexti () <> 0 in let dyn = nexti () <> 0 in
+  let at = nexti () in let rep = nexti () <> 0 in
+  let n = nexti () in
+  let rec rd i = if i = 0 then [] else let x = nexti () in x :: rd (i - 1) in
+  let tl = List.map z_of_int (rd n) in
+  let m = nexti () in
+  let xl = List.map z_of_int (rd m) in
+  let c = { laststep = z_of_int last; outstep = z_of_int outs; h5save = z_of_int h5; renorm = z_of_int rn;
+            hdf = hdf; wake = wake; dynrf = dyn } in
+  let (kind, o) = model_run_full c (z_of_int at) rep tl xl in
+  print_outcome id o;
+  Printf.printf "kind %d\n" (int_of_z kind);
+  print_string "end\n"
+
 let do_run () =
   let id = next () in
   let last = nexti () in let outs = nexti () in let h5 = nexti () in let rn = nexti () in
@@ -30,6 +71,12 @@ let do_run () =
   Printf.printf "k %d\n" (int_of_z o.o_k);
   Printf.printf "abort %d\n" (if o.o_abort then 1 else 0);
   Printf.printf "pc %d\n" (int_of_z o.o_pc);
+  print_string "rf";
+  List.iter (fun (st, l) -> Printf.printf " %d:%s" (int_of_z st) (String.concat "," (List.map (fun x -> string_of_int (int_of_z x)) l))) o.o_rf;
+  print_newline ();
+  print_string "pending";
+  List.iter (fun x -> Printf.printf " %d" (int_of_z x)) o.o_pending;
+  print_newline ();
   print_string "end\n"
 
-let () = run_main ["run", do_run]
+let () = run_main ["run", do_run; "full", do_full]
